@@ -958,6 +958,38 @@ func c19Stream(c *core.Ctx, pkg *packages.Package) {
 			c.Ok("C19.stream", e[0])
 		}
 	}
+	// the agent side of the same stream: one writer (writeLoop), one reader (readLoop)
+	if ap := c.P.Pkg("udf/agent"); ap != nil {
+		ainfo := ap.TypesInfo
+		for _, e := range [][2]string{{"WriteMessage", "writeLoop"}, {"ReadMessage", "readLoop"}} {
+			n, good := 0, true
+			for _, f := range core.AllFuncs(ap) {
+				if f.Decl.Body == nil || core.RecvTypeName(f.Obj) != "Agent" {
+					continue
+				}
+				ast.Inspect(f.Decl.Body, func(nd ast.Node) bool {
+					call, ok := nd.(*ast.CallExpr)
+					if !ok {
+						return true
+					}
+					g := core.Callee(ainfo, call)
+					if g == nil || g.Name() != e[0] || g.Pkg() != ap.Types {
+						return true
+					}
+					n++
+					if f.Decl.Name.Name != e[1] {
+						good = false
+						c.Fail("C19.stream", "agent."+e[0]+"@"+f.Name(), call.Pos(), "the agent calls %s on its stream from %s; only %s may: a second goroutine writing frames (each frame is two Write calls) lets one frame land between the length header and the body of another, and the peer reads garbage", e[0], f.Decl.Name.Name, e[1])
+					}
+					return true
+				})
+			}
+			c.Floor("C19.stream", "agent "+e[0]+" call sites", n, 1)
+			if good && n > 0 {
+				c.Ok("C19.stream", "agent."+e[0])
+			}
+		}
+	}
 	if fn := c.Need("C19.stream", "udf", "Server", "Start"); fn != nil {
 		gos := map[string]int{}
 		ast.Inspect(fn.Decl.Body, func(n ast.Node) bool {
